@@ -371,6 +371,85 @@ Qed.
 
 End Steps.
 
+(* ---- two environments (finding F6d) ----------------------------------------------------------------------------------
+   The engine re-evaluates in the session environment at start/resume and in the contact-merged environment inside
+   modifiers.Apply (model: run_sprint2 Es Em).  If the two agree on groups and on what every query says of every
+   contact, everything above carries over; if they can disagree (a date condition whose day differs between the
+   session's and the contact's time zone) membership after a sprint depends on which re-evaluation ran last. *)
+Definition groups_env_agree (Es Em : menv) : Prop :=
+  all_groups Es = all_groups Em /\ (forall g, uses_query Es g = uses_query Em g)
+  /\ (forall g c, matches Es g c = matches Em g c).
+
+Lemma reeval_loop_agree : forall Es Em c todo cur a r,
+  (forall g, uses_query Es g = uses_query Em g) -> (forall g c, matches Es g c = matches Em g c) ->
+  reeval_loop Es c todo cur a r = reeval_loop Em c todo cur a r.
+Proof.
+  intros Es Em c todo. induction todo as [|h todo IH]; intros cur a r Hu Hm; [reflexivity|].
+  cbn [reeval_loop]. unfold qualifies. rewrite Hu, Hm.
+  destruct (negb (uses_query Em h)); [apply IH; assumption|].
+  destruct (is_active c && matches Em h (qview c)); destruct (gmem h cur); apply IH; assumption.
+Qed.
+
+Lemma ensure_agree : forall Es Em c, groups_env_agree Es Em -> ensure_query_groups Es c = ensure_query_groups Em c.
+Proof.
+  intros Es Em c [Ha [Hu Hm]]. unfold ensure_query_groups, reevaluate_query_groups.
+  rewrite Ha, (reeval_loop_agree Es Em c _ _ _ _ Hu Hm). reflexivity.
+Qed.
+
+Lemma run_steps2_agree : forall Es Em ss c, groups_env_agree Es Em -> run_steps2 Es Em ss c = run_steps Em ss c.
+Proof.
+  intros Es Em ss. induction ss as [|s ss IH]; intros c Hag; [reflexivity|]. cbn [run_steps2 run_steps].
+  assert (Hs : run_step2 Es Em s c = run_step Em s c) by (destruct s; cbn; [reflexivity | apply ensure_agree; exact Hag | reflexivity | reflexivity]).
+  rewrite Hs. destruct (run_step Em s c) as [c1 e1]. rewrite IH by exact Hag. reflexivity.
+Qed.
+
+Lemma consistent_agree : forall Es Em c, groups_env_agree Es Em -> Consistent Em c -> Consistent Es c.
+Proof.
+  intros Es Em c [Ha [Hu Hm]] HC g Hall Huq. unfold qualifies. rewrite Hm. rewrite Ha in Hall. rewrite Hu in Huq.
+  exact (HC g Hall Huq).
+Qed.
+
+Theorem after_sprint_two_env : forall Es Em k acts c c' evs,
+  groups_env_agree Es Em ->
+  wf_contact Em c -> kind_wf Em k -> Forall (fun fm => mod_wf Em (snd fm)) acts ->
+  run_sprint2 Es Em k acts c = (c', evs) ->
+  same_contact (replay evs c) c' /\ Consistent Em c' /\ Consistent Es c'.
+Proof.
+  intros Es Em k acts c c' evs Hag Hwf Hk Hms H. unfold run_sprint2 in H. rewrite run_steps2_agree in H by exact Hag.
+  destruct (after_sprint Em k acts c c' evs Hwf Hk Hms H) as [R [C W]].
+  split; [exact R|]. split; [exact C | exact (consistent_agree Es Em c' Hag C)].
+Qed.
+
+Definition with_matches (E : menv) (f : N -> contact -> bool) : menv :=
+  {| max_field_chars := max_field_chars E; urn_normalize := urn_normalize E; urn_valid := urn_valid E;
+     urn_identity := urn_identity E; urn_scheme := urn_scheme E; urn_set_channel := urn_set_channel E;
+     tel_scheme := tel_scheme E; chan_can_send := chan_can_send E; chan_supports := chan_supports E;
+     field_types := field_types E; parse_num := parse_num E; parse_dt := parse_dt E; parse_loc := parse_loc E;
+     all_groups := all_groups E; uses_query := uses_query E; matches := f |}.
+
+(* without the agreement: the same resume, once without and once with an action that does not touch what the query
+   reads; after the first the contact is in the group (right for the session environment, wrong for the merged one),
+   after the second it is out (the other way round) *)
+Theorem after_sprint_two_env_refuted :
+  exists Es Em k c c1 e1 c2 e2,
+    Em = with_matches Es (matches Em) /\ wf_contact Em c
+    /\ run_sprint2 Es Em k [] c = (c1, e1) /\ run_sprint2 Es Em k [(7, MLanguage 2)] c = (c2, e2)
+    /\ Consistent Es c1 /\ ~ Consistent Em c1 /\ Consistent Em c2 /\ ~ Consistent Es c2.
+Proof.
+  exists (with_matches ex_env (fun _ _ => true)), (with_matches ex_env (fun _ _ => false)),
+         (KResume None (Some 5)), (ex_contact [106] [0]).
+  eexists. eexists. eexists. eexists.
+  split; [reflexivity|]. split; [split; [repeat constructor; cbn; intuition discriminate | intros g [H|[]]; subst; cbn; tauto]|].
+  split; [reflexivity|]. split; [reflexivity|].
+  split; [|split; [|split]].
+  - intros g [H|[H|[]]] Hu; subst; cbn in Hu; try discriminate. cbn. intuition.
+  - intro HC. specialize (HC 1 (or_intror (or_introl eq_refl)) eq_refl). cbn in HC. destruct HC as [HC _].
+    specialize (HC (or_intror (or_introl eq_refl))). discriminate.
+  - intros g [H|[H|[]]] Hu; subst; cbn in Hu; try discriminate. cbn. split; [intros [H|[]]; discriminate | discriminate].
+  - intro HC. specialize (HC 1 (or_intror (or_introl eq_refl)) eq_refl). cbn in HC. destruct HC as [_ HC].
+    destruct (HC eq_refl) as [H|[]]. discriminate.
+Qed.
+
 (* the premises are satisfiable: a msg resume with a refreshed contact whose stored membership is wrong *)
 Example ex_sprint :
   run_sprint ex_env (KResume (Some (ex_contact [98; 111; 98] [0])) (Some 5)) [(7, MLanguage 2)] (ex_contact [106] [0])
